@@ -720,6 +720,9 @@ func (fx *FX) inlineCall(st *State, callee *ssa.Function, args []Val, envRef T, 
 	sub.bound = map[ssa.Value]bool{}
 	sub.assertsSeen = map[string]bool{}
 	sub.entryRefs = fx.entryRefs
+	if fx.strLits == nil {
+		fx.strLits = map[string]T{}
+	}
 	sub.strLits = fx.strLits
 	sub.entry = fx.entry
 	sub.modRefs = fx.modRefs
